@@ -1087,7 +1087,13 @@ def _run_chimera(c):
             fails.add('seed', f"{desc}: two calls with the same seed differ")
         if len(inner | outer) >= 4 and mult != 0 and len(signs) < 2:
             fails.add('seed', f"{desc}: every interaction has the same sign for {1 + SEED_SWEEP} seeds")
-    return _finish(c, fails, feats, len(nodes) > 0, {"num_variables": len(nodes), "num_interactions": len(inner | outer)})
+    res = _finish(c, fails, feats, len(nodes) > 0, {"num_variables": len(nodes), "num_interactions": len(inner | outer)})
+    if c.get("sub_keep") is None and not fails.items:
+        # per-case tie of Model/RandStruct.v (tile_edges / intertile_edges), decided in Coq (CChimera)
+        quad = wlib.clist([f"({int(u)}%nat, {int(v)}%nat, {wlib.cq(F(x))})" for (u, v), x in bqm.quadratic.items()])
+        res["coq"] = f"(CChimera {wlib.cnat(m)} {wlib.cnat(n)} {wlib.cnat(t)} {wlib.cq(mult)} {quad})"
+        res["features"]["coq_tie"] = "chimera"
+    return res
 
 
 def _run_fcl(c):
